@@ -4,6 +4,8 @@ import (
 	"go/constant"
 	"go/token"
 	"go/types"
+
+	"golang.org/x/tools/go/ssa"
 )
 
 // ---- term constructors with light, sound simplification ----
@@ -84,7 +86,7 @@ func (x *Explorer) Eq(a, b *Term) *Term {
 	if a.IsNil() && b.IsNil() {
 		return x.T.Bool(true)
 	}
-	if (a.IsNil() && nonNilShape(b)) || (b.IsNil() && nonNilShape(a)) {
+	if (a.IsNil() && (nonNilShape(b) || x.nonNilGlobalLoad(b))) || (b.IsNil() && (nonNilShape(a) || x.nonNilGlobalLoad(a))) {
 		return x.T.Bool(false)
 	}
 	// distinct allocations are distinct addresses
@@ -159,11 +161,19 @@ func (x *Explorer) lowerS(t *Term) (int64, bool) {
 		}
 		return 0, true
 	case KConv:
-		if isUnsigned(t.Args[0].Type) {
-			return 0, true
-		}
-		if _, uns, ok := intBits(t.Args[0].Type, x.P.Pkg.TypesSizes); ok && !uns {
-			return x.lower(t.Args[0])
+		if b1, uns, ok := intBits(t.Args[0].Type, x.P.Pkg.TypesSizes); ok {
+			b2, uns2, ok2 := intBits(t.Type, x.P.Pkg.TypesSizes)
+			if ok2 && (b2 > b1 || (b2 == b1 && uns == uns2)) && !(uns2 && !uns) {
+				if lo, has := x.lower(t.Args[0]); has {
+					return lo, true
+				}
+			}
+			if uns && ok2 && b2 > b1 {
+				return 0, true
+			}
+			if uns2 {
+				return 0, true
+			}
 		}
 	case KBin:
 		if t.Op == token.AND {
@@ -210,12 +220,23 @@ func (x *Explorer) upperS(t *Term) (int64, bool) {
 			return int64(len(a.Args)), true
 		}
 	case KConv:
-		if bits, uns, ok := intBits(t.Args[0].Type, x.P.Pkg.TypesSizes); ok && uns && bits <= 32 {
-			if bits2, _, ok2 := intBits(t.Type, x.P.Pkg.TypesSizes); ok2 && bits2 > bits {
-				if u, ok3 := x.upper(t.Args[0]); ok3 {
-					return u, true
+		if b1, uns, ok := intBits(t.Args[0].Type, x.P.Pkg.TypesSizes); ok {
+			b2, uns2, ok2 := intBits(t.Type, x.P.Pkg.TypesSizes)
+			if ok2 && (b2 > b1 || (b2 == b1 && uns == uns2)) && !(uns2 && !uns) {
+				if hi, has := x.upper(t.Args[0]); has {
+					return hi, true
 				}
-				return int64(1)<<uint(bits) - 1, true
+				if uns && b1 <= 32 {
+					return int64(1)<<uint(b1) - 1, true
+				}
+			}
+			// narrowing of a value known to fit keeps the bound
+			if ok2 && b2 < b1 {
+				lo, hasLo := x.lower(t.Args[0])
+				hi, hasHi := x.upper(t.Args[0])
+				if hasLo && hasHi && lo >= 0 && b2 >= 8 && hi < int64(1)<<uint(b2-1) {
+					return hi, true
+				}
 			}
 		}
 	case KBin:
@@ -394,3 +415,15 @@ func (x *Explorer) Conv(a *Term, typ types.Type) *Term {
 // Lower / Upper expose the constant bounds known for a term on the current path.
 func (x *Explorer) Lower(t *Term) (int64, bool) { return x.lower(t) }
 func (x *Explorer) Upper(t *Term) (int64, bool) { return x.upper(t) }
+
+// nonNilGlobalLoad: t loads a package-level variable of this package that is
+// assigned exactly once, in the package initialiser, with a non-nil value.
+func (x *Explorer) nonNilGlobalLoad(t *Term) bool {
+	for t.Kind == KMakeIface || t.Kind == KConv {
+		t = t.Args[0]
+	}
+	if t.Kind != KLoad || t.Args[0].Kind != KGlobal {
+		return false
+	}
+	return x.P.NonNilGlobal(t.Args[0].Ref.(*ssa.Global))
+}
